@@ -15,6 +15,7 @@ import (
 
 	meshconfig "istio.io/api/mesh/v1alpha1"
 	securityclient "istio.io/client-go/pkg/apis/security/v1"
+	"istio.io/istio/pilot/pkg/model"
 	"istio.io/istio/pilot/pkg/serviceregistry/ambient"
 	"istio.io/istio/pkg/kube/krt"
 	"istio.io/istio/pkg/workloadapi/security"
@@ -42,6 +43,8 @@ type ambientView struct {
 	idx  krt.Index[string, *securityclient.PeerAuthentication]
 	mesh *ambient.MeshConfig
 
+	authz krt.Collection[model.WorkloadAuthorization] // empty: no AuthorizationPolicy in these cases
+
 	sentCache map[string]*security.Authorization
 }
 
@@ -57,6 +60,7 @@ func (s *sut) ambientView() *ambientView {
 	}
 	col := krt.NewStaticCollection[*securityclient.PeerAuthentication](nil, v.crs)
 	v.idx = krt.NewNamespaceIndex(col)
+	v.authz = krt.NewStaticCollection[model.WorkloadAuthorization](nil, nil)
 	v.mesh = &ambient.MeshConfig{MeshConfig: &meshconfig.MeshConfig{RootNamespace: s.root}}
 	s.av = v
 	return v
@@ -221,7 +225,10 @@ func (s *sut) ambientEval(ns string, labels [][2]string) ambientResult {
 		res.fetched = append(res.fetched, cr.Namespace+"/"+cr.Name)
 	}
 	sort.Strings(res.fetched)
-	res.keys = ambient.VerifConvertedSelectorPeerAuthentications(s.root, fetched)
+	// the keys as production computes them: the REAL buildWorkloadPolicies (fetchPeerAuthentications +
+	// convertedSelectorPeerAuthentications composed by the code under test, no AuthorizationPolicy present)
+	res.keys = ambient.VerifBuildWorkloadPolicies(krt.TestingDummyContext{}, v.authz, v.idx, v.mesh, labelsMap(labels), ns)
+	sort.Strings(res.keys)
 	res.pol = "-"
 	sent := v.sent(s.root)
 	for _, k := range res.keys {
@@ -354,6 +361,11 @@ func (s *sut) ambientOracle(f []string, _ string, fail func(clause, class, detai
 		}
 		fail("ambient-strict-exact", class, fmt.Sprintf("port %d spec-strict %v rejected %v keys %s policy %s wl %s/%s ns %s mesh %s",
 			p, want, got, strings.Join(r.keys, ","), r.pol, wlMode, portMode, l.nsMode, l.meshMode))
+		return
+	}
+	// exact on every port: the workload must still not reference a policy that istiod does not send
+	if r.dangling {
+		fail("ambient-no-dangling-reference", "referenced-policy-not-sent", fmt.Sprintf("keys %s policy %s", strings.Join(r.keys, ","), r.pol))
 		return
 	}
 }
